@@ -7,6 +7,7 @@ import datetime
 from functools import partial
 import logging
 import os
+import pickle
 import re
 from warnings import warn
 
@@ -1670,7 +1671,12 @@ class FlowProposal(RejectionProposal):
             if os.path.exists(weights_file):
                 try:
                     self.flow.reload_weights(weights_file)
-                except (RuntimeError, EOFError, OSError) as e:
+                except (
+                    RuntimeError,
+                    EOFError,
+                    OSError,
+                    pickle.UnpicklingError,
+                ) as e:
                     if not os.path.exists(old_weights_file):
                         raise
                     logger.warning(
